@@ -39,6 +39,8 @@ func checkC02(c *Ctx) {
 	c.Rule("R2.6", "number formatting: strconv base 10 / shortest 'f' on every path; NaN/±Inf arms agree with their literals", 4)
 	c.Rule("R2.7", "error expansion: message, Causes, Verbose-if-different; nil causes skipped", 4)
 	c.Rule("R2.8", "reflection fallback: HTML escaping off, null shortcut, reset before / trim after", 3)
+	c.Rule("R2.13", "what decodes must first parse: every path of every encoder method writes exactly one well-formed member / element / entry (token grammar)", 20)
+	c1Grammar(c, "R2.13")
 	c.Rule("R2.9", "nesting: objects/arrays/namespaces are closed at the level they were opened on every path (incl. marshaler errors)", 10)
 	c1Namespaces(c, "R2.9")
 	c1Pairing(c, "R2.9")
